@@ -42,6 +42,11 @@ def add_import_surface(rng, ir):
             # a datatype whose dotted name differs from the one package 0
             # uses only in letter case (another function)
             dt = "zcsim.simdt.Conv_1"
+        elif rng.random() < 0.3:
+            # a datatype that lives in a module of its own, imported when
+            # the component is parsed (an import that can fail for a while)
+            dt = "zcsim_pdt.conv_%d" % (k + 1)
+            packages["zcsim_pdt"] = {"is_package": False, "datatypes": True}
         t = comp_type("pt%d" % k, "abx", conv=k + 1, dt=dt)
         ctypes[pname] = [t]
         imports = []
